@@ -39,7 +39,8 @@ static pthread_attr_t attrs[MAXT];
 static pthread_mutex_t DM = PTHREAD_MUTEX_INITIALIZER;
 static void dtor(void *v){
   if ((long)v & 1){ sched_yield(); __sync_fetch_and_add(&dtsum, (long)v); __sync_fetch_and_add(&dtcalls, 1); return; }
-  pthread_mutex_lock(&DM); dtsum += (long)v; sched_yield(); dtcalls += 1; pthread_mutex_unlock(&DM); }
+  /* (the totals are updated atomically on both paths: the lock is there to make destructors block, not to protect them) */
+  pthread_mutex_lock(&DM); __sync_fetch_and_add(&dtsum, (long)v); sched_yield(); __sync_fetch_and_add(&dtcalls, 1); pthread_mutex_unlock(&DM); }
 static void once_fn(void){ __sync_fetch_and_add(&oncecnt, 1); }
 static __attribute__((noinline)) void nested_exit(long v, int depth){
   volatile char pad[48]; pad[0] = (char)depth;
